@@ -121,8 +121,8 @@ pub fn dec_val(l: &[i64], pos: &mut usize) -> Option<Val> {
             let s = next(pos)?;
             Q(Quantity::new(f_of_bits(b), Unit::new(m as i8, s as i8)))
         }
-        3 => T(Time(next(pos)?)),
-        4 => D(DimensionlessInteger(next(pos)?)),
+        3 => T(Time::new(next(pos)?)),
+        4 => D(DimensionlessInteger::new(next(pos)?)),
         5 => {
             let m = next(pos)?;
             let s = next(pos)?;
